@@ -5,6 +5,7 @@ import (
 	"math/rand"
 	"os"
 	"path/filepath"
+	"runtime"
 	"sort"
 	"strings"
 	"sync"
@@ -483,6 +484,20 @@ func c09Run(c *Ctx, idx int, rng *rand.Rand, sc *c09Scenario, dir string) {
 					defer wg.Done()
 					doOp(&sc.Ops[gi], gi)
 				}(gi)
+			}
+			if rng.Intn(2) == 0 {
+				// a starting sender of the same source asks for the list of partly
+				// received files while the parts arrive
+				nl := 1 + rng.Intn(4)
+				wg.Add(1)
+				go func() {
+					defer wg.Done()
+					for k := 0; k < nl; k++ {
+						_, _ = rs.Stage.Scan("1")
+						runtime.Gosched()
+					}
+					res.Count("listings_during_concurrent_receptions", int64(nl))
+				}()
 			}
 			wg.Wait()
 			res.Count("concurrent_groups", 1)
